@@ -153,6 +153,8 @@ class ClassRef(object):
                         m[s.name] = Closure(self.interp, s, self.ctx, None, self, None, kind)
                 elif isinstance(s, ast.Assign) and len(s.targets) == 1 and isinstance(s.targets[0], ast.Name):
                     m[s.targets[0].id] = ("expr", s.value)
+                elif isinstance(s, ast.ClassDef):          # nested class (PatternRegistry.DefaultPattern): a class-level attribute
+                    m[s.name] = ClassRef(self.interp, s, self.ctx)
             self._members = m
         return self._members
 
@@ -441,6 +443,9 @@ _PURE = {n: getattr(_bi, n)
                    "list", "dict", "set", "tuple", "frozenset", "complex", "round", "iter", "next", "map", "filter", "repr", "divmod", "pow", "object", "id", "callable", "hash")}
 
 
+_ITER_CONSUMERS = ("list", "tuple", "set", "frozenset", "sorted", "sum", "any", "all", "min", "max", "enumerate", "zip", "reversed", "iter", "map", "filter")
+
+
 class Interp(object):
     def __init__(self, world, fuel):
         self.world = world
@@ -635,6 +640,13 @@ class Interp(object):
             raise Unsupported("super")
         if not callable(f):
             raise ProgramError(TypeError("%r is not callable" % (f,)), getattr(node, "lineno", None))
+        if f is str and len(args) == 1 and not kwargs and isinstance(args[0], Instance):
+            m = self._dunder(args[0], "__str__") or self._dunder(args[0], "__repr__")      # str(obj) of a repository class: its own __str__
+            if m is not None:
+                return m()
+        if any(isinstance(a, Instance) for a in args) and any(f is _PURE.get(n_) for n_ in _ITER_CONSUMERS):
+            # list(obj) / sorted(obj) / set(obj) ... on an instance of a repository class that defines __iter__: iterate it by its own method
+            args = [list(self.iterate(a, node)) if self._dunder(a, "__iter__") is not None else a for a in args]
         try:
             return f(*args, **kwargs)
         except (ProgramError, Unsupported, _Return, _Break, _Continue):
